@@ -15,6 +15,10 @@ import (
 	"github.com/MichaelMure/git-bug/util/text"
 )
 
+// deletedUserName is the name of the identity that stands for the users
+// deleted from the tracker
+const deletedUserName = "Deleted user"
+
 // gitlabImporter implement the Importer interface
 type gitlabImporter struct {
 	conf core.Configuration
@@ -385,6 +389,21 @@ func (gi *gitlabImporter) ensurePerson(repo *cache.RepoCache, id int) (*cache.Id
 	}
 	if entity.IsErrMultipleMatch(err) {
 		return nil, err
+	}
+
+	if id == 0 {
+		// a label or state event whose user was deleted comes with "user": null:
+		// there is nobody to ask the API for, a placeholder identity is the author
+		i, err = repo.Identities().NewRaw(
+			deletedUserName, "", "", "", nil,
+			map[string]string{metaKeyGitlabId: strconv.Itoa(id)},
+		)
+		if err != nil {
+			return nil, err
+		}
+
+		gi.out <- core.NewImportIdentity(i.Id())
+		return i, nil
 	}
 
 	user, _, err := gi.client.Users.GetUser(id, gitlab.GetUsersOptions{})
